@@ -521,6 +521,8 @@ def list_sort(X, st, L, node):
     rng = lambda x: z3.And(0 <= x, x < n)
     st.pc.append(safe_forall([k], z3.Implies(rng(k), z3.And(rng(pi(k)), ip(pi(k)) == k, new[k] == arr[pi(k)])), patterns=[pi(k), new[k]]))
     st.pc.append(safe_forall([k], z3.Implies(rng(k), z3.And(rng(ip(k)), pi(ip(k)) == k)), patterns=[ip(k)]))
+    # (consequence of the two facts above, stated with a trigger on the OLD content: every old element is somewhere in the new list)
+    st.pc.append(safe_forall([k], z3.Implies(rng(k), z3.And(rng(ip(k)), new[ip(k)] == arr[k])), patterns=[arr[k]]))
     key = None
     for kw in node.keywords:
         if kw.arg == "key":
